@@ -55,9 +55,17 @@ def run_history(chunks, finaliser='finalise', check_prefix=False, kind='bytes'):
     b = mciipm.Block1014(f)
     off = 0
     wrap = DATA_KINDS[kind]
+    # a second blocker over another file receives writes in between (two outputs open at once): each keeps its own state
+    of, other, ooff = (KeepIO(), None, 0)
+    if len(chunks) % 2 == 0:
+        other = mciipm.Block1014(of)
     for n in chunks:
         b.write(wrap(POS[off:off + n]))
         off += n
+        if other is not None:
+            k = (n * 5 + 3) % 1400
+            other.write(POS[ooff:ooff + k])
+            ooff += min(k, len(POS) - ooff)
         if check_prefix:
             cur = f.getvalue()
             # before finalisation a blocker may hold data back (buffering is its business); what it has put into the file
@@ -76,6 +84,10 @@ def run_history(chunks, finaliser='finalise', check_prefix=False, kind='bytes'):
     else:
         b.close()
         out = f.final
+    if other is not None:
+        other.finalise()
+        if judge(of.getvalue(), ooff):
+            return out, off, ('second-instance-disturbed', f'a second blocker written to in between writes {chunks} produced a malformed file: {judge(of.getvalue(), ooff)}')
     return out, off, None
 
 
